@@ -358,11 +358,16 @@ fn mut_to(m: &Mutation) -> Value {
         Mutation::Version { v } => json!({"version": {"v": v.to_string()}}),
         Mutation::FixChecksum => json!("recompute_checksum"),
         Mutation::Downgrade { v } => json!({"downgrade_to_version": v}),
+        Mutation::TrailerFrom { kind } => json!({"trailer_from_body": kind.name()}),
     }
 }
 fn mut_from(v: &Value) -> R<Mutation> {
     if v.as_str() == Some("recompute_checksum") {
         return Ok(Mutation::FixChecksum);
+    }
+    if let Some(x) = v.get("trailer_from_body") {
+        let kind = crate::restart::TrailerKind::from_name(x.as_str().unwrap_or("")).ok_or("trailer kind")?;
+        return Ok(Mutation::TrailerFrom { kind });
     }
     if let Some(x) = v.get("downgrade_to_version") {
         return Ok(Mutation::Downgrade { v: x.as_u64().ok_or("version")? });
@@ -475,7 +480,7 @@ pub fn multi_from(v: &Value) -> R<MultiCase> {
 }
 
 fn fam_to(f: &KeyFamily) -> Value {
-    json!({"n": f.n, "fanout": f.fanout, "keylen": f.keylen, "seed": f.seed.to_string(), "prefix_pairs": f.pairs, "leaf_fan": f.leaf_fan, "decreasing_values": f.decreasing, "repeat_each_key": f.repeat})
+    json!({"n": f.n, "fanout": f.fanout, "keylen": f.keylen, "seed": f.seed.to_string(), "prefix_pairs": f.pairs, "leaf_fan": f.leaf_fan, "decreasing_values": f.decreasing, "repeat_each_key": f.repeat, "section_vocabulary": f.sec_vocab, "section_parents": f.sec_parents})
 }
 fn fam_from(v: &Value) -> R<KeyFamily> {
     Ok(KeyFamily {
@@ -487,6 +492,8 @@ fn fam_from(v: &Value) -> R<KeyFamily> {
         leaf_fan: v.get("leaf_fan").and_then(|x| x.as_u64()).unwrap_or(0) as u32,
         decreasing: v.get("decreasing_values").and_then(|x| x.as_bool()).unwrap_or(false),
         repeat: v.get("repeat_each_key").and_then(|x| x.as_u64()).unwrap_or(1) as u32,
+        sec_vocab: v.get("section_vocabulary").and_then(|x| x.as_u64()).unwrap_or(0) as u32,
+        sec_parents: v.get("section_parents").and_then(|x| x.as_u64()).unwrap_or(0) as u32,
     })
 }
 
@@ -503,6 +510,8 @@ pub fn case_to(c: &Case) -> Value {
             "sink": shape_to(&Some((m.shape, 0))),
             "one_extend_iter_call": m.bulk && !m.bulk_stream,
             "one_extend_stream_call": m.bulk && m.bulk_stream,
+            "rejected_inserts_after_each_key": m.rejects,
+            "one_run_of_rejected_inserts_at_half_way": m.reject_run,
         }}),
         Case::Delta(d) => json!({"address_delta_boundary": {"target_delta": d.target, "seed": d.seed.to_string()}}),
         Case::FromIter(f) => json!({"from_iter": {"entry_point": f.entry.name(), "items": items_to(&f.items)}}),
@@ -536,6 +545,8 @@ pub fn case_from(v: &Value) -> R<Case> {
             bulk: x.get("one_extend_iter_call").and_then(|b| b.as_bool()).unwrap_or(false)
                 || x.get("one_extend_stream_call").and_then(|b| b.as_bool()).unwrap_or(false),
             bulk_stream: x.get("one_extend_stream_call").and_then(|b| b.as_bool()).unwrap_or(false),
+            rejects: x.get("rejected_inserts_after_each_key").and_then(|b| b.as_u64()).unwrap_or(0) as u32,
+            reject_run: x.get("one_run_of_rejected_inserts_at_half_way").and_then(|b| b.as_u64()).unwrap_or(0),
         }));
     }
     if let Some(x) = v.get("address_delta_boundary") {
